@@ -150,8 +150,8 @@ def jobs(prop, tier):
         js.append(_job("B-asan", "B", "asan", range(NSHARDS), 0.25, 200, optional=True))
     if quick:
         js.append(_job("B-release", "B", "release", range(NSHARDS), 1.0, 100))
-        if prop in HISTORY_PROPS:
-            js.append(_job("A-release", "A", "release", [3, 11], 1.0, 100))
+        # default-feature configuration (no rust-secp256k1): a slice of the same cases
+        js.append(_job("A-release", "A", "release", [3, 11], 1.0, 100))
         if prop in OVERFLOW_PROPS:
             js.append(_job("B-dev", "B", "dev", [5], 0.5, 100))
     else:
